@@ -265,7 +265,7 @@ Qed.
 
 (* run events of the callback instance u posted under id i *)
 Definition ev_run_ui (u : uid) (i : idx) (e : event) : nat :=
-  match e with EvRun v _ (Some j) => if uid_dec v u then (if Nat.eq_dec j i then 1 else 0) else 0 | _ => 0 end.
+  match e with EvRun v _ (Some j) _ => if uid_dec v u then (if Nat.eq_dec j i then 1 else 0) else 0 | _ => 0 end.
 Definition runs_ui (u : uid) (i : idx) (l : list event) : nat := fold_right (fun e a => ev_run_ui u i e + a) 0 l.
 
 Lemma step_fin1_incl c t c' : step c t = Some c' -> incl (fin1 c) (fin1 c').
